@@ -228,7 +228,8 @@ FieldAlts(f) ==
   CASE f.k \in {"U", "Bool", "Fix"} -> {0}
     [] f.k = "Sig"   -> {"x", "z"}
     [] f.k = "Var"   -> f.lens
-    [] f.k = "List"  -> {[c |-> n, e |-> DefSk(f.g)] : n \in f.counts \ {1}}
+    \* (the largest count with minimal elements, so that the encoding stays near one frame)
+    [] f.k = "List"  -> {[c |-> n, e |-> DefSk(f.g)] : n \in f.counts \ {1, Max(f.counts)}}
                         \cup {[c |-> 1, e |-> e] : e \in SkAlts(f.g)}
                         \cup {[c |-> Max(f.counts), e |-> MinSk(f.g)]}
     [] f.k = "Nest"  -> SkAlts(f.g)
